@@ -52,7 +52,7 @@ ANCHORS = [
 ]
 
 DATES = ["2020/03/08", "2019/12/31", "2020/02/29", "2020/11/01", "03/08", "12/31", "sunday", "wed", "today", "tomorrow", ""]
-TIMES = ["2:30", "02:30:15", "23:59:59.5", "noon", "midnight", "sunrise", "sunset", ""]
+TIMES = ["2:30", "02:30:15", "23:59:59.5", "13:07:13.7", "10:10:10.01", "noon", "midnight", "sunrise", "sunset", ""]
 OFFSETS = ["", "+ 90s", "- 30 min", "+ 1.5 h", "+1d", "-1w"]
 INTERVALS = ["7 s", "15 min", "1 h", "6 h", "1 d", "1.5 h", "1w"]
 CRON_FIELDS = {
